@@ -707,6 +707,67 @@ def enum_value_at(pos, vals):
     return vals[0]
 
 
+def num_lattice(idx0):
+    """Every numeric class (Number/Integer/Float x the five sign classes) x {no explicit bound, explicit maximum,
+    explicit minimum} x exclusiveMaximum on/off (typedpy has no exclusiveMinimum); instances: every candidate sitting
+    exactly on, and next to, the bound the sign implies (0, +-1, +-0.000001) and the explicit bound, that the real
+    field accepts."""
+    envs = []
+    idx = idx0
+    for k in ("Number", "Integer", "Float"):
+        for sg in ("Any", "Positive", "Negative", "NonPositive", "NonNegative"):
+            for bound in ("none", "max", "min"):
+                for xmax in (False, True):
+                    f = {"t": "num", "k": k, "s": sg}
+                    if bound == "max":
+                        f["max"] = E.reify(-3 if sg in ("Negative", "NonPositive") else 5)
+                    if bound == "min":
+                        f["min"] = E.reify(2 if sg in ("Positive", "NonNegative") else -5)
+                    if xmax:
+                        f["xmax"] = True
+                    env = Env()
+                    name = "K%d_0" % idx
+                    idx += 1
+                    c = {"name": name, "fields": [{"name": "v", "field": f}, {"name": "n", "field": INT}], "additional": False}
+                    try:
+                        env.add(c)
+                    except Exception:  # noqa
+                        continue
+                    pts = [0, 1, -1, 2, -2]
+                    for b in (f.get("max"), f.get("min")):
+                        if b is not None:
+                            x = G.unreify(b)
+                            pts += [x, x - 1, x + 1]
+                    cands = []
+                    for x in pts:
+                        if k != "Float":
+                            cands.append(int(x))
+                        if k != "Integer":
+                            cands += [float(x), x + 0.5, x - 0.5]
+                    if k != "Integer":
+                        cands += [0.000001, -0.000001, 1e-9, -1e-9, 0.0000011, -0.0000011]
+                    insts, seen = [], set()
+                    for x in cands:
+                        key = (type(x).__name__, x)
+                        if key in seen:
+                            continue
+                        seen.add(key)
+                        kw = [("v", E.reify(x)), ("n", ("int", 1))]
+                        try:
+                            insts.append((kw, env.classes[name](**S.realize_kwargs(kw, env))))
+                        except Exception:  # noqa  not a valid value of this declaration
+                            pass
+                    env.instances[name] = [("struct", name, kw) for kw, _ in insts]
+                    env.top_instances = insts
+                    env.top = name
+                    env.generated = [name]
+                    env.snapshot_required()
+                    env.history = [(name, False)]
+                    env.lattice = "num:%s:%s:%s:%s" % (k, sg, bound, "xmax" if xmax else "-")
+                    envs.append(env)
+    return envs, idx
+
+
 def enum_lattice(rnd, idx0, tier):
     """Every enum class of the vocabulary x every position an Enum field can take x (thorough: every proper prefix of
     the members as an explicit subset); instances: every allowed member, as object and by name."""
@@ -1984,9 +2045,10 @@ def run(rep, tier):
     envs = []
     for idx in range(n_env):
         envs.append(build_case(rnd, idx, tier))
-    lat_e, _ = enum_lattice(rnd, n_env, tier)
+    lat_e, nxt = enum_lattice(rnd, n_env, tier)
+    lat_n, _ = num_lattice(nxt)
     lat_r = ref_lattice(rnd, tier)
-    envs += lat_e + lat_r
+    envs += lat_e + lat_n + lat_r
     events = []
     for env in envs:
         env.events = run_history(env)
@@ -1994,6 +2056,7 @@ def run(rep, tier):
     mutated = sum(1 for e in envs if e.required_mutated)
     lap("generate+export")
     rep.cov["streams"]["lattice:enum"] = {"evaluations": len(lat_e)}
+    rep.cov["streams"]["lattice:numeric-class-x-bounds-x-boundary-instances"] = {"evaluations": len(lat_n)}
     rep.cov["streams"]["lattice:ref-graph-x-history"] = {"evaluations": len(lat_r)}
 
     # ---- oracle jobs: real export (dialect-translated) + real serializations (+ boundary documents)
